@@ -4,18 +4,18 @@
    only thing assumed about it is [lower_idempotent] where stated (the harness
    sweeps every rune for it).
 
-   The code departs from the property in three places, all kept in the model:
-   (1) an embedded field whose type is not a struct (pointer to struct, named
-       scalar) makes extraction panic (reflect NumField) instead of emitting
-       the fields;
-   (2) the value of an unknown key is not skipped correctly when it contains
+   The code departs from the property in two places, both kept in the model:
+   (1) the value of an unknown key is not skipped correctly when it contains
        an edge (the ignore builders pop after the third component and then see
        the edge's end-container event);
-   (3) a key that is not a string is not skipped: it is stored, and so is its
+   (2) a key that is not a string is not skipped: it is stored, and so is its
        value, in the field matched by the previous entry (or the builder
        panics when there is none).
    [C21_full] is the whole property; it is refuted; [C21_partial] is the
-   property on the fragment that excludes exactly these three classes. *)
+   property on the fragment that excludes exactly these two classes.
+   (Formerly a third: an embedded field of a non-struct type made extraction
+   panic.  Since the fix it is an ordinary field named after its type;
+   [C21_marshal_total] and [C21_embedded_non_struct_is_a_field] state it.) *)
 From Coq Require Import Permutation Sorted.
 From CE Require Import Model.Fields Proofs.FieldsProofs.
 Open Scope N_scope.
@@ -53,12 +53,46 @@ Theorem C21_marshal_emits_kept_fields :
 Proof. exact iterate_emits_kept_fields. Qed.
 Print Assumptions C21_marshal_emits_kept_fields.
 
-(* Extraction succeeds whenever the tags parse and no embedded non-struct field is reached. *)
-Theorem C21_marshal_total_partial :
-  forall ulower snake fs, tags_parse fs = true -> no_emb_other fs = true ->
-                          exists fl, flat_fields ulower snake fs = Some fl.
+(* Extraction succeeds whenever the tags parse (embedded fields of non-struct types included). *)
+Theorem C21_marshal_total :
+  forall ulower snake fs, tags_parse fs = true -> exists fl, flat_fields ulower snake fs = Some fl.
 Proof. exact flat_fields_total. Qed.
-Print Assumptions C21_marshal_total_partial.
+Print Assumptions C21_marshal_total.
+
+(* An embedded field whose type is not a struct (pointer to struct, named
+   scalar, slice, map) is handled exactly like an ordinary field with the same
+   name (the name of its type) and tag: by the iterator ... *)
+Theorem C21_embedded_non_struct_is_a_field :
+  forall ulower snake n e t p acc,
+    extract_decl ulower snake (FEmbOther n e t) p acc = extract_decl ulower snake (FLeaf n e t) p acc.
+Proof. exact emb_other_is_leaf_extract. Qed.
+Print Assumptions C21_embedded_non_struct_is_a_field.
+
+(* ... and by the builder's table. *)
+Theorem C21_embedded_non_struct_is_a_builder_field :
+  forall n e t p, btable_decl (FEmbOther n e t) p = btable_decl (FLeaf n e t) p.
+Proof. exact emb_other_is_leaf_btable. Qed.
+Print Assumptions C21_embedded_non_struct_is_a_builder_field.
+
+(* The former counterexample struct { MyInt; C int }: emitted as my_int, c; "my_int" finds the field again. *)
+Theorem C21_embedded_non_struct_witness :
+  (iterate_struct id_lower true OEmpty wA dummy_valuation
+   = Some [([109;121;95;105;110;116], [0]); ([99], [1])]) /\
+  (btable wA = Some [([77;121;73;110;116], [0]); ([67], [1])]) /\
+  (lookup id_lower [([77;121;73;110;116], [0]); ([67], [1])] true [109;121;95;105;110;116] = Some [0]).
+Proof. exact embedded_non_struct_witness. Qed.
+Print Assumptions C21_embedded_non_struct_witness.
+
+(* A struct registered as a record type: the record type's keys and every
+   record's values are the extracted fields kept by the omit flag and default
+   alone, in the same order, whatever the values. *)
+Theorem C21_record_fields :
+  forall ulower snake dflt fs,
+    record_fields ulower snake dflt fs
+    = option_map (fun fl => map emit (sort_fields (filter (kept dflt dummy_valuation) fl)))
+                 (flat_fields ulower snake fs).
+Proof. exact record_fields_spec. Qed.
+Print Assumptions C21_record_fields.
 
 (* With case-insensitive matching (the default) every key the struct iterator
    writes, in either name style, is resolved by the struct builder of the same
@@ -143,11 +177,6 @@ Theorem C21_full_refuted : ~ C21_full.
 Proof. exact full_statement_refuted. Qed.
 Print Assumptions C21_full_refuted.
 
-(* struct { MyInt; C int } with type MyInt int: the tags parse, extraction panics *)
-Theorem C21_embedded_non_struct_refuted : ~ marshal_total.
-Proof. exact marshal_total_refuted. Qed.
-Print Assumptions C21_embedded_non_struct_refuted.
-
 (* {"zz" = @(1 2 3), "C" = 5} into struct { A; C }: the struct ends at the edge's end event, C is never set *)
 Theorem C21_unknown_key_edge_value_refuted : ~ skips_any_value.
 Proof. exact skips_any_value_refuted. Qed.
@@ -159,7 +188,7 @@ Proof. exact skips_non_string_key_refuted. Qed.
 Print Assumptions C21_non_string_key_refuted.
 
 Theorem C21_partial :
-  (forall ulower snake fs, tags_parse fs = true -> no_emb_other fs = true ->
+  (forall ulower snake fs, tags_parse fs = true ->
                            exists fl, flat_fields ulower snake fs = Some fl)
   /\ marshal_emits_kept /\ names_round_trip
   /\ (forall ulower tbl ci k v tgt below fv rest,
@@ -190,7 +219,7 @@ Definition ex_val : valuation :=
 
 Example C21_example_hypotheses :
   lower_idempotent id_lower /\
-  tags_parse ex_type = true /\ no_emb_other ex_type = true /\
+  tags_parse ex_type = true /\
   (exists tb, btable ex_type = Some tb /\ idents_distinct id_lower tb) /\
   (* y b d a z c — the empty HTTPServer string is omitted under the default *)
   iterate_struct id_lower true OEmpty ex_type ex_val
@@ -200,7 +229,7 @@ Example C21_example_hypotheses :
      (match iterate_struct id_lower true ONever ex_type ex_val with Some l => l | None => [] end).
 Proof.
   split; [exact id_lower_idempotent|].
-  split; [vm_compute; reflexivity|]. split; [vm_compute; reflexivity|].
+  split; [vm_compute; reflexivity|].
   split.
   - eexists. split; [vm_compute; reflexivity|].
     unfold idents_distinct. vm_compute.
